@@ -426,7 +426,7 @@ func runCheck(spec *CheckSpec, tier string) int {
 	t0 := time.Now()
 	seed := 0
 	fmt.Sscan(os.Getenv("VERIF_SEED"), &seed)
-	evPath := filepath.Join(verifDir, "evidence", spec.ID+".json")
+	evPath := filepath.Join(outDir(), "evidence", spec.ID+".json")
 	os.MkdirAll(filepath.Dir(evPath), 0755)
 	os.Remove(evPath)
 
@@ -588,8 +588,8 @@ func runCheck(spec *CheckSpec, tier string) int {
 	seen := map[string]int{}
 	var conf []confirmed
 	var unconfirmed []string
-	os.RemoveAll(filepath.Join(verifDir, "replays", spec.ID))
-	os.MkdirAll(filepath.Join(verifDir, "replays", spec.ID), 0755)
+	os.RemoveAll(filepath.Join(outDir(), "replays", spec.ID))
+	os.MkdirAll(filepath.Join(outDir(), "replays", spec.ID), 0755)
 	for _, rv := range raws {
 		key := rv.job.Harness + "|" + rv.v.Kind + "|" + rv.v.Msg + "|" + rv.v.Class
 		if seen[key] >= 2 || len(conf) >= 16 {
@@ -624,7 +624,7 @@ func runCheck(spec *CheckSpec, tier string) int {
 				c.Known = true
 			}
 		}
-		rp := filepath.Join(verifDir, "replays", spec.ID, fmt.Sprintf("%s_%d.json", rv.job.Harness, len(conf)))
+		rp := filepath.Join(outDir(), "replays", spec.ID, fmt.Sprintf("%s_%d.json", rv.job.Harness, len(conf)))
 		rb, _ := json.MarshalIndent(map[string]interface{}{"property": spec.ID, "pkg": rv.job.Pkg, "harness": rv.job.Harness, "params": rv.job.Params,
 			"vector": rv.v.Vector, "names": rv.v.Names, "kind": rv.v.Kind, "msg": rv.v.Msg, "class": rv.v.Class, "notes": rv.v.Notes, "replay_status": o.Status, "replay_detail": o.Detail, "mode": map[bool]string{true: "engine", false: "native"}[engine]}, "", " ")
 		os.WriteFile(rp, rb, 0644)
@@ -664,7 +664,7 @@ func runCheck(spec *CheckSpec, tier string) int {
 		status = 1
 	}
 	for i, xv := range extraViol {
-		rp := filepath.Join(verifDir, "replays", spec.ID, fmt.Sprintf("extra_%d.txt", i))
+		rp := filepath.Join(outDir(), "replays", spec.ID, fmt.Sprintf("extra_%d.txt", i))
 		os.WriteFile(rp, []byte(xv+"\n"), 0644)
 		isKnown := false
 		for _, k := range known {
@@ -961,4 +961,14 @@ func retryOpaque(nb *nativeBuild, job Job, v Violation) ([]uint64, replayOutcome
 		}
 	}
 	return nil, replayOutcome{}, false
+}
+
+// outDir: where evidence and replay files are written (GOSYM_OUT for trial runs against a scratch
+// copy of the repository, /verif otherwise).
+func outDir() string {
+	if d := os.Getenv("GOSYM_OUT"); d != "" {
+		os.MkdirAll(filepath.Join(d, "evidence"), 0755)
+		return d
+	}
+	return verifDir
 }
